@@ -145,7 +145,8 @@ def new_sdstats():
     return {'cases': 0, 'by_source': {}, 'by_style': {'static-meta': 0, 'static-decorator': 0, 'dynamic': 0},
             'classes_per_case': {}, 'features_per_class': {}, 'cases_meeting_theorem_premises': 0,
             'with_opposites': 0, 'with_defaults': 0, 'with_diamond': 0, 'with_abstract': 0,
-            'body_cases': 0, 'body_python_raised': 0, 'body_entries': {}, 'naming_cases': 0, 'model_calls': 0}
+            'body_cases': 0, 'body_python_raised': 0, 'body_entries': {}, 'naming_cases': 0, 'model_calls': 0,
+            'behaviour_cases': 0, 'behaviour_calls': 0, 'behaviour_outcomes': {}}
 
 
 def eclasses_of(world, mm):
@@ -219,29 +220,113 @@ def staticdecl_kernel_case(out, model, case, worlds, st):
         sd_count(st, D, 'kernel-metamodel', wf)
 
 
+def sd_check_descr(out, model, st, D, source):
+    """one description, both static styles: real static / real dynamic against the model, and against each other"""
+    for render, deco in (('static-meta', False), ('static-decorator', True)):
+        it = sd.Interner()
+        rs, rd = sd_real(D, deco, it)
+        wf, ms, md, ca = sd.ask_descr(model, D, deco, it)
+        st['model_calls'] += 1
+        rep = {'staticdecl': D, 'deco': deco}
+        if not wf:
+            out.diff('a generated description does not meet wf_descr (the theorem premise)', rep)
+        sd_compare(out, f'reflective description, {render} vs model', rs, ms, rep)
+        sd_compare(out, 'reflective description, dynamic vs model', rd, md, rep)
+        if wf and (ms != ca or md != ca):
+            out.diff('model: description read back differs from the canonical description (theorem contradicted)', rep)
+        if rs != rd:
+            cn = next((a['name'] for a, b in zip(rs, rd) if a != b), '?') if isinstance(rs, list) and isinstance(rd, list) else '?'
+            out.fail({'property': PID, 'clause': 'reflective-description', 'render': render},
+                     f'class {cn}: {render} and dynamic reflect different descriptions: {str(rs)[:200]} vs {str(rd)[:200]}', rep)
+        st['by_style'][render] += 1
+        st['by_style']['dynamic'] += 1
+        sd_count(st, D, source, wf)
+
+
 def staticdecl_generated(ctx, out, model, st, n):
     """generated descriptions (abstract classes, diamonds, bounds, defaults, opposites, operations), both styles"""
     for _ in range(n):
-        D = sd.gen_descr(ctx.rng)
-        for render, deco in (('static-meta', False), ('static-decorator', True)):
-            it = sd.Interner()
-            rs, rd = sd_real(D, deco, it)
-            wf, ms, md, ca = sd.ask_descr(model, D, deco, it)
-            st['model_calls'] += 1
-            rep = {'staticdecl': D, 'deco': deco}
-            if not wf:
-                out.diff('a generated description does not meet wf_descr (the theorem premise)', rep)
-            sd_compare(out, f'reflective description, {render} vs model', rs, ms, rep)
-            sd_compare(out, 'reflective description, dynamic vs model', rd, md, rep)
-            if wf and (ms != ca or md != ca):
-                out.diff('model: description read back differs from the canonical description (theorem contradicted)', rep)
-            if rs != rd:
-                cn = next((a['name'] for a, b in zip(rs, rd) if a != b), '?') if isinstance(rs, list) and isinstance(rd, list) else '?'
-                out.fail({'property': PID, 'clause': 'reflective-description', 'render': render},
-                         f'class {cn}: {render} and dynamic reflect different descriptions: {str(rs)[:200]} vs {str(rd)[:200]}', rep)
-            st['by_style'][render] += 1
-            st['by_style']['dynamic'] += 1
-            sd_count(st, D, 'generated', wf)
+        sd_check_descr(out, model, st, sd.gen_descr(ctx.rng), 'generated')
+
+
+# ---------------------------------------------------------------- instances of both renderings, the same calls
+BEHAVE_RENDERS = ['dynamic', 'static-meta', 'static-decorator']
+
+
+def behave_traces(D, history):
+    """{rendering: trace | 'construction raised X'}"""
+    tr = {}
+    for render in BEHAVE_RENDERS:
+        try:
+            b = sd.Behaviour(D, render)
+        except Exception as e:  # noqa
+            tr[render] = 'construction raised ' + type(e).__name__
+            continue
+        try:
+            tr[render] = b.run(history)
+        finally:
+            b.close()
+    return tr
+
+
+def behave_first_difference(tr):
+    """(rendering, step index | None, dynamic side, static side) of the first difference with the dynamic rendering"""
+    best = None
+    for render in BEHAVE_RENDERS[1:]:
+        a, b = tr['dynamic'], tr[render]
+        if isinstance(a, str) or isinstance(b, str):
+            if a != b:
+                return render, None, a if isinstance(a, str) else 'constructed', b if isinstance(b, str) else 'constructed'
+            continue
+        j = next((j for j, (x, y) in enumerate(zip(a, b)) if x != y), None)
+        if j is not None and (best is None or j < best[1]):
+            best = (render, j, a[j], b[j])
+    return best
+
+
+def behave_case(ctx, out, st, scenario, D, history):
+    tr = behave_traces(D, history)
+    st['behaviour_cases'] += 1
+    if not isinstance(tr['dynamic'], str):
+        st['behaviour_calls'] += 3 * len(history)
+        for h, r in zip(history, tr['dynamic']):
+            k = h[0] + ':' + (r['result'][0] if r['result'][0] == 'ok' else r['result'][1])
+            st['behaviour_outcomes'][k] = st['behaviour_outcomes'].get(k, 0) + 1
+    d = behave_first_difference(tr)
+    if d is None:
+        return
+    render, j, a, b = d
+    cut = history
+    if j is not None:
+        # the steps on the same instance up to the differing one are enough when they still differ
+        small = [h for h in history[:j + 1] if h[1] == history[j][1]]
+        d2 = behave_first_difference(behave_traces(D, small))
+        cut = small if d2 is not None and d2[1] == len(small) - 1 else history[:j + 1]
+    step = history[j] if j is not None else ['construct']
+    out.fail({'property': PID, 'clause': 'behaviour', 'scenario': scenario, 'culprit': step[0], 'render': render},
+             f'{scenario}: step {step} on an instance of {D["classes"][step[1]]["name"] if j is not None else "-"}: '
+             f'dynamic {str(a)[:160]} vs {render} {str(b)[:160]}',
+             {'scenario': scenario, 'seed': ctx.seed, 'tier': ctx.tier, 'behave': D, 'history': cut})
+
+
+def clash_scenarios(ctx, out, model=None, st=None):
+    """multiple inheritance, branches of different depth declaring members of the same name"""
+    st = st if st is not None else new_sdstats()
+    rng = common.rng_for(ctx.seed, 'C13:clash')
+    for _ in range(45 if ctx.tier != 'thorough' else 600):
+        D = sd.gen_clash_descr(rng)
+        if model is not None:
+            sd_check_descr(out, model, st, D, 'clash')
+        behave_case(ctx, out, st, 'clash', D, sd.behave_history(D, rng))
+
+
+def keyword_scenarios(ctx, out, model=None, st=None):
+    """operations named after soft keywords, hard keywords and plain names, called on both renderings"""
+    st = st if st is not None else new_sdstats()
+    rng = common.rng_for(ctx.seed, 'C13:keyword-ops')
+    for _ in range(25 if ctx.tier != 'thorough' else 300):
+        D = sd.gen_keyword_descr(rng)
+        behave_case(ctx, out, st, 'keyword-ops', D, sd.behave_history(D, rng, xload=False))
 
 
 def staticdecl_naming(out, model, st):
@@ -391,6 +476,8 @@ def run(ctx, out):
             samples.append({'templates': case['templates'], 'history': case['history']})
     staticdecl_generated(ctx, out, model, sdstats, 120 if not thorough else 1500)
     staticdecl_naming(out, model, sdstats)
+    clash_scenarios(ctx, out, model, sdstats)
+    keyword_scenarios(ctx, out, model, sdstats)
     staticdecl_bodies(ctx, out, model, sdstats, 150 if not thorough else 3000)
     model.close()
     out.coverage.update({'staticdecl_' + k: v for k, v in sdstats.items()})
@@ -409,6 +496,17 @@ def run(ctx, out):
 
 def replay(ctx, rep):
     case = rep['case']
+    if 'behave' in case:
+        tr = behave_traces(case['behave'], case['history'])
+        d = behave_first_difference(tr)
+        for render in BEHAVE_RENDERS:
+            t = tr[render]
+            print(render, t if isinstance(t, str) else [r['result'] for r in t][-3:])
+        if d is not None:
+            print('REPRODUCED', d[0], 'step', case['history'][d[1]] if d[1] is not None else 'construct', ':', str(d[2])[:200], 'vs', str(d[3])[:200])
+            return 1
+        print('not reproduced')
+        return 0
     if 'staticdecl' in case:
         D, deco = case['staticdecl'], case['deco']
         it = sd.Interner()
